@@ -140,12 +140,12 @@ public:
   /// vectors.
   Angle(const PlanarVector<NumericType>& planar_vector_1,
         const PlanarVector<NumericType>& planar_vector_2)
-    : Angle(std::acos(planar_vector_1.Dot(planar_vector_2)
+    : Angle(ArcCosine(planar_vector_1.Dot(planar_vector_2)
                       / (planar_vector_1.Magnitude() * planar_vector_2.Magnitude()))) {}
 
   /// \brief Constructor. Constructs an angle by computing the angle between two given vectors.
   Angle(const Vector<NumericType>& vector1, const Vector<NumericType>& vector2)
-    : Angle(std::acos(vector1.Dot(vector2) / (vector1.Magnitude() * vector2.Magnitude()))) {}
+    : Angle(ArcCosine(vector1.Dot(vector2) / (vector1.Magnitude() * vector2.Magnitude()))) {}
 
   /// \brief Constructor. Constructs an angle by computing the angle between a given planar vector
   /// and planar direction.
@@ -340,6 +340,19 @@ private:
   /// unit.
   explicit constexpr Angle(const NumericType value)
     : DimensionalScalar<Unit::Angle, NumericType>(value) {}
+
+  /// \brief Returns the arc cosine of a given cosine, after clamping the cosine to the interval
+  /// [-1, 1]. Floating-point rounding can push the computed cosine of the angle between two
+  /// (anti)parallel vectors slightly outside of this interval, for which std::acos returns NaN.
+  [[nodiscard]] static NumericType ArcCosine(const NumericType cosine) noexcept {
+    if (cosine > static_cast<NumericType>(1)) {
+      return std::acos(static_cast<NumericType>(1));
+    }
+    if (cosine < static_cast<NumericType>(-1)) {
+      return std::acos(static_cast<NumericType>(-1));
+    }
+    return std::acos(cosine);
+  }
 };
 
 template <typename NumericType>
